@@ -7,12 +7,14 @@ import (
 	"github.com/bmeg/grip/engine/pipeline"
 	"github.com/bmeg/grip/gdbi"
 	"github.com/bmeg/grip/gripql"
+	"github.com/influxdata/tdigest"
 )
 
 func init() {
 	vHarnesses["VerifH_C07_volume"] = VerifH_C07_volume
 	vHarnesses["VerifH_C07_cancel"] = VerifH_C07_cancel
 	vHarnesses["VerifH_C07_run"] = VerifH_C07_run
+	vHarnesses["VerifH_C07_aggregate"] = VerifH_C07_aggregate
 }
 
 // c07Cycle: n vertices on a directed cycle v0 -> v1 -> ... -> v0 (every vertex has
@@ -207,4 +209,77 @@ func VerifH_C07_run() {
 		vAssert("C07.run.resources-released", len(left) == 0)
 	}
 	vAssert("C07.run.no-goroutine-left", vBlockedGoroutines() <= 0)
+}
+
+
+// Stand-ins for influxdata/tdigest when aggregate.Process is executed symbolically
+// (the centroid merging is not encodable and termination does not depend on it);
+// natively the real digest is used.
+func c07TDNew() *tdigest.TDigest                            { return &tdigest.TDigest{} }
+func c07TDAdd(td *tdigest.TDigest, x, w float64)            {}
+func c07TDQuantile(td *tdigest.TDigest, q float64) float64 { return 0 }
+
+// VerifH_C07_aggregate: V().aggregate([kind, count]) for every aggregation kind on n
+// vertices, n up to several multiples of the per-aggregation channel capacity, with
+// one vertex optionally carrying a value the aggregation cannot use (a string where a
+// number is expected, a list where a term is expected): the feeder pushes every row
+// into every aggregation's channel, so an aggregation that stops reading before its
+// channel is closed blocks the whole step. The stream must close, the count
+// aggregation next to it must have seen every row, no goroutine may stay blocked.
+func VerifH_C07_aggregate() {
+	sizes := []int{0, 1, 3, 25, 45, 70}
+	n := sizes[vChoice("size", vParam("SIZES", 5))] * vParam("NATIVE_SCALE", 1)
+	g := c07Cycle(n)
+	odd := vChoice("odd", 4) // 0: none, 1: first vertex, 2: middle, 3: last
+	if n > 0 && odd > 0 {
+		i := 0
+		if odd == 2 {
+			i = n / 2
+		} else if odd == 3 {
+			i = n - 1
+		}
+		if vChoice("oddKind", 2) == 0 {
+			g.vs[i].Data["x"] = "n/a"
+		} else {
+			g.vs[i].Data["x"] = []interface{}{"p"}
+		}
+	}
+	var a *gripql.Aggregate
+	switch vChoice("agg", 6) {
+	case 0:
+		a = &gripql.Aggregate{Name: "a", Aggregation: &gripql.Aggregate_Term{Term: &gripql.TermAggregation{Field: "x", Size: 2}}}
+	case 1:
+		a = &gripql.Aggregate{Name: "a", Aggregation: &gripql.Aggregate_Histogram{Histogram: &gripql.HistogramAggregation{Field: "x", Interval: 40}}}
+	case 2:
+		a = &gripql.Aggregate{Name: "a", Aggregation: &gripql.Aggregate_Percentile{Percentile: &gripql.PercentileAggregation{Field: "x", Percents: []float64{50}}}}
+	case 3:
+		a = &gripql.Aggregate{Name: "a", Aggregation: &gripql.Aggregate_Field{Field: &gripql.FieldAggregation{Field: "x"}}}
+	case 4:
+		a = &gripql.Aggregate{Name: "a", Aggregation: &gripql.Aggregate_Type{Type: &gripql.TypeAggregation{Field: "x"}}}
+	default:
+		a = &gripql.Aggregate{Name: "a", Aggregation: &gripql.Aggregate_Count{Count: &gripql.CountAggregation{}}}
+	}
+	c := &gripql.Aggregate{Name: "c", Aggregation: &gripql.Aggregate_Count{Count: &gripql.CountAggregation{}}}
+	aggs := []*gripql.Aggregate{a, c}
+	if vChoice("countFirst", 2) == 1 {
+		aggs = []*gripql.Aggregate{c, a}
+	}
+	stmts := []*gripql.GraphStatement{sV(), {Statement: &gripql.GraphStatement_Aggregate{Aggregate: &gripql.Aggregations{Aggregations: aggs}}}}
+	pipe, err := g.Compiler().Compile(stmts, nil)
+	vAssert("C07.agg.compiles", err == nil)
+	if err != nil {
+		return
+	}
+	rows := vRunPipe(g, pipe, 2)
+	vReach("c07.agg.closed")
+	counted, countRows := -1, 0
+	for _, r := range rows {
+		if ag := r.GetAggregations(); ag != nil && ag.Name == "c" {
+			countRows++
+			counted = int(ag.Value)
+		}
+	}
+	vAssert("C07.agg.count-row", countRows == 1)
+	vAssert("C07.agg.count-saw-every-row", counted == n)
+	vAssert("C07.agg.no-goroutine-left", vBlockedGoroutines() == 0)
 }
